@@ -26,13 +26,15 @@ const ORDER_INDEPENDENT: &[&str] = &[
 ];
 
 pub fn case(tape: &[u32]) -> CaseOutcome {
-    let mut t = Tape::new(tape);
+    let (aux, main) = split_tape(tape);
+    let mut a = Tape::new(&aux);
+    let mut t = Tape::new(&main);
     let mut cfg = GenCfg::fragment();
-    cfg.fault = t.chance(1, 4);
-    cfg.scoped_heavy = t.chance(1, 2);
+    cfg.fault = a.chance(1, 4);
+    cfg.scoped_heavy = a.chance(1, 2);
+    let sources = pick_sources(&mut a, 2);
     let program = make_program(&mut t, &cfg);
     let dsl = &program.printed.text;
-    let sources = pick_sources(&mut t, 2);
     let file = match load_valid("C02", dsl) {
         Ok(f) => f,
         Err(o) => return o,
@@ -132,7 +134,7 @@ pub fn case(tape: &[u32]) -> CaseOutcome {
 }
 
 pub fn spec(tier: &str) -> Spec {
-    let mut s = Spec::new("C02", tier, 4_000, 60_000, 700);
+    let mut s = Spec::new("C02", tier, 4_000, 60_000, 1200);
     s.rule = "programs generated inside the order-insensitive fragment (no var/set on scoped variables; inherited names defined in stanzas that precede their readers; scoped definitions scoped by captures only; graph nodes never rendered to text), a quarter with one injected run-time fault; each executed strict and lazy on 1-2 trees. Oracle: strict Ok => lazy Ok with isomorphic graphs; strict Err with an order-independent root cause => lazy Err; no panic in either mode. Non-trivial: strict produced >=2 nodes and >=1 edge/attribute and the run executed a cross-stanza scoped read, scan arm, loop/comprehension iteration, shorthand expansion or mutable local. Distinct = fingerprint of (DSL text, sources).".into();
     s.assumptions = vec!["the fragment is enforced by the generator (harness/src/gen.rs, cfg.fragment)".into()];
     s
